@@ -209,15 +209,11 @@ def sharedArr (h : Heap) (r : Nat) : Bool :=
       | _ => false))).length > 0
   | _ => false
 
-/-- the known finding a step falls under, judged on the Impl heap before the step -/
+/-- the known finding a step falls under, judged on the Impl heap before the step
+    (the tag `map` of the repaired finding C16-list-map-shared-index is no longer given:
+    a `list.map` step that leaves the reference is an unlisted violation) -/
 def findingTag (h : Heap) (op : Op) : String :=
   match op with
-  | .lMap r .idx => match h.get r with
-    | .list xs => if xs.length ≥ 2 then "map" else "-"
-    | _ => "-"
-  | .lMapAcc r _ => match h.get r with
-    | .list xs => if xs.length ≥ 2 then "map" else "-"
-    | _ => "-"
   | .bSet r _ _ => if sharedArr h r then "bytes" else "-"
   | _ => "-"
 
